@@ -9,6 +9,7 @@ from .. import fix
 ID = 'C07'
 LEVEL = 'exploration'
 RULE = (
+    'Big: 2600 held functions of 5 variables and multiplexer shapes over 9 variables: every adjacent swap there and back, sifting, reorder to a drawn order, sifting again; all held tables, structure and counts after each. One history shard per tier under python -O. '
     'E: n=3, every set of <=2 held functions (all 32 896 in thorough, a '
     'seeded 1/12 in quick) x 6 starting orders x {each adjacent swap by '
     'level and by name in either argument order, each of the 6 target '
